@@ -30,6 +30,7 @@ func (g *FailoverGroup) GetChunk(id ChunkID) (*Chunk, error) {
 	for i := 0; i < len(g.stores); i++ {
 		s, active := g.current()
 		b, err := s.GetChunk(id)
+		verifChain(g, "fo.ret", active, verifChainKind(false, err), s)
 		if err == nil { // return right away on success
 			return b, err
 		}
@@ -53,6 +54,7 @@ func (g *FailoverGroup) HasChunk(id ChunkID) (bool, error) {
 	for i := 0; i < len(g.stores); i++ {
 		s, active := g.current()
 		hc, err := s.HasChunk(id)
+		verifChain(g, "fo.ret", active, verifChainKind(hc, err), s)
 		if err == nil { // return right away on success
 			return hc, err
 		}
@@ -86,8 +88,11 @@ func (g *FailoverGroup) Close() error {
 
 // Thread-safe method to return the currently active store.
 func (g *FailoverGroup) current() (Store, int) {
+	verifChain(g, "fo.want.r", 0, 0, nil)
+	defer verifChain(g, "fo.runlocked", 0, 0, nil)
 	g.mu.RLock()
 	defer g.mu.RUnlock()
+	verifChain(g, "fo.rlocked", g.active, 0, g.stores[g.active])
 	return g.stores[g.active], g.active
 }
 
@@ -96,10 +101,15 @@ func (g *FailoverGroup) current() (Store, int) {
 // requests. Another request could have initiated the failover already. So ignore if i is not
 // (no longer) the active store.
 func (g *FailoverGroup) errorFrom(i int) {
+	verifChain(g, "fo.want.w", i, 0, nil)
+	defer verifChain(g, "fo.unlocked", 0, 0, nil)
 	g.mu.Lock()
 	defer g.mu.Unlock()
+	verifChain(g, "fo.locked", i, g.active, nil)
 	if i != g.active {
+		verifChain(g, "fo.stale", i, g.active, nil)
 		return
 	}
 	g.active = (g.active + 1) % len(g.stores)
+	verifChain(g, "fo.advanced", i, g.active, nil)
 }
